@@ -160,7 +160,7 @@ def opname(op):
     if op[0] == "irqcfg0":
         return "interrupt_config()"
     if op[0] == "readn":
-        return "read(n)"
+        return "read"
     return op[0]
 
 
